@@ -58,6 +58,7 @@ def gen(ctx):
                                    mode=r.choice(['r+', 'r+', 'r']),
                                    metadata=r.choice([None, None, {'a': 1}])))
     cases += raglib.trailing_empty_cases(r)
+    cases += raglib.index_limit_cases(r)
     # every fourth history runs with both subarrays held open in an open_arrays() context: same outcomes
     for i, c in enumerate(cases):
         if i % 4 == 3 and not any(o['op'] == 'delete' for o in c['ops']):
@@ -71,6 +72,15 @@ def key_of(case):
 
 
 def run(ctx):
+    B = [dict(kind='exactchunk'), dict(kind='longlist')]
+    for bc, ob in zip(B, ctx.run_impl(B, 'big_first', shards=2, timeout=1800)):
+        key = dict(form={'exactchunk': 'first subarray of exactly one default chunk (80 MiB)',
+                         'longlist': 'first subarray a list of 2**20+6 numbers, the last one a float'}[bc['kind']])
+        if 'harness_error' in ob:
+            ctx.fail('harness-error', key, observed=ob); continue
+        ctx.seen(key); ctx.count('big-first-subarray'); ctx.evaluations += 1
+        if not ob['ok']:
+            ctx.fail('list-of-arrays-model:create', key, expected='the subarrays given, as float64', observed=ob['detail'])
     cases = gen(ctx)
     obs = ctx.run_impl(cases, 'history', timeout=2400)
     raglib.locale_independent(ctx, cases, obs, 'history', 'ragged-history')
